@@ -309,6 +309,17 @@ def evaluate(case):
                 got = list(tbl.r)
             else:
                 m = M.SqlMethod(sel_sql, order_by=ctor_order)
+                if case.get("poison") is not None:
+                    # the same method object first serves a request that fails (invalid condition, unknown column, more
+                    # than one record for one()): nothing of it may stick
+                    pk, pentry = case["poison"]
+                    bad = [("tb.s", "LIKE", 5), ("tb.id", "IN", 3), ("tb.nosuch", "=", 1), ("tb.id", ">=", -10**12)][pk % 4]
+                    try:
+                        getattr(m, ["one", "one_or_none", "list"][pentry % 3])(conn, bad)
+                    except Exception:   # noqa
+                        pass
+                    del log.calls[:]
+                    notes.add("failed_request_on_the_same_method_object_before")
                 if entry == "list":
                     got = m.list(conn, *args, **call_kw)
                 elif entry == "all":
@@ -387,7 +398,8 @@ def st_str():
 
 
 def st_int():
-    return st.integers(-3, 6) | st.integers(-10**9, 10**9)
+    # operands for the INTEGER columns: ints, and numbers that compare equal to ints but are of another type
+    return st.integers(-3, 6) | st.integers(-10**9, 10**9) | st.sampled_from([0, 1, 2, 0.0, 1.0, 2.0, 5.0, True, False, 2.5])
 
 
 def st_colval(col, nullable=True):
@@ -488,7 +500,8 @@ def st_case(draw, max_conds=4, with_kwargs=True):
             "scalars": draw(st.integers(0, 3)) == 0,
             "entry": draw(st.sampled_from(["list", "list", "all", "one", "one_or_none", "T_list", "T_wrap_list", "T_wrap_list",
                                            "T_one", "T_wrap_oon"])),
-            "percent": draw(st.integers(0, 3)) == 0}
+            "percent": draw(st.integers(0, 3)) == 0,
+            "poison": draw(st.none() | st.none() | st.tuples(st.integers(0, 3), st.integers(0, 2)).map(list))}
 
 
 def parts(tier):
